@@ -964,10 +964,44 @@ def _ref_value(Ref, e, ctx, reverse=False, naive=False):
     return v, ev.bad
 
 
+def _has_np_int(e):
+    import numpy as np
+    import pymbolic.primitives as p
+    if isinstance(e, np.integer):
+        return True
+    if isinstance(e, p.Expression):
+        return any(_has_np_int(getattr(e, f, None)) for f in util._expr_field_names(e))
+    if isinstance(e, tuple):
+        return any(_has_np_int(x) for x in e)
+    return False
+
+
+def _narrow_ok(e, v, kind, fenv):
+    """Constants of the narrow numpy integer types make the evaluator's arithmetic wrap (or
+    signal overflow) within the type where C computes in long long: such programs are compiled
+    but not compared or run.  The stock evaluator decides, with numpy's overflow signalling
+    switched to raising: its value must be the one exact integer arithmetic gives."""
+    if kind not in ("int", "mixed") or not _has_np_int(e):
+        return True
+    import numpy as np
+    import warnings
+    from pymbolic.mapper.evaluator import EvaluationMapper
+    try:
+        with np.errstate(all="raise"), warnings.catch_warnings():
+            warnings.simplefilter("error")
+            vf = EvaluationMapper(dict(fenv))(e)
+        return (int(vf) == int(v)) if kind == "int" else (float(vf) == float(v))
+    except Exception:  # noqa: BLE001
+        return False
+
+
 def _expectation(Ref, e, kind, env, fenv, probes):
     ctx = dict(fenv)
     v, bad = _ref_value(Ref, e, ctx)
     ok = v is not None and not bad
+    if ok and not _narrow_ok(e, v, kind, fenv):
+        probes["discard_narrow_int_wraps"] = probes.get("discard_narrow_int_wraps", 0) + 1
+        return ["discard", None, False]
     if ok and kind == "mixed":
         return ["float", float(v), True]       # exact arithmetic by construction
     if ok and kind == "cplx":
@@ -1003,23 +1037,6 @@ def _expectation(Ref, e, kind, env, fenv, probes):
             return ["illcond", None, True]
         return ["float", fv, True]
     if ok:
-        # constants of the narrow numpy integer types make the evaluator's arithmetic wrap (or
-        # signal overflow) within the type where C computes in long long: such programs are
-        # compiled but not compared.  The stock evaluator decides, with numpy's overflow
-        # signalling switched to raising.
-        import numpy as np
-        import warnings
-        from pymbolic.mapper.evaluator import EvaluationMapper
-        try:
-            with np.errstate(all="raise"), warnings.catch_warnings():
-                warnings.simplefilter("error")
-                vf = EvaluationMapper(dict(fenv))(e)
-            same = int(vf) == int(v)
-        except Exception:  # noqa: BLE001
-            same = False
-        if not same:
-            probes["discard_narrow_int_wraps"] = probes.get("discard_narrow_int_wraps", 0) + 1
-            return ["discard", None, False]
         return ["int", int(v), True]
     key = "discard_" + (bad[0] if bad else "none").split(":")[0]
     probes[key] = probes.get(key, 0) + 1
@@ -1065,7 +1082,7 @@ def _build_post(ms, kind, env, fenv, Ref, p, probes):
                 # keep it simple: mapped children never contain wrappers of their own
                 return None, False
             v, bad = _ref_value(Ref, child, ctx)
-            if v is None or bad:
+            if v is None or bad or not _narrow_ok(child, v, kind, fenv):
                 runnable = False
             ct = ctype
             if kind == "mixed":
@@ -1093,7 +1110,7 @@ def _build_post(ms, kind, env, fenv, Ref, p, probes):
         # evaluable, else the function is compile-only
         for k in list(m.obj.cse_to_name):
             v, bad = _ref_value(Ref, k, ctx)
-            if v is None or bad:
+            if v is None or bad or not _narrow_ok(k, v, kind, fenv):
                 runnable = False
         expects = []
         for j, (text, (ekind, evalue, ok), opi) in enumerate(m.emitted):
